@@ -5,12 +5,19 @@ package p9
 
 import (
 	"encoding/binary"
+	"encoding/json"
 	"io"
 	"math/rand"
 	"net"
+	"os"
+	"path/filepath"
+	"runtime"
+	"strconv"
 	"sync"
 	"testing"
 	"time"
+
+	"github.com/u-root/uio/ulog"
 
 	"github.com/hugelgupf/p9/linux"
 )
@@ -95,7 +102,7 @@ type vh02Session struct {
 
 // vh02Sess: Tversion(msize) first (reply awaited), then the stream written in pieces,
 // write side closed, replies read until the server closes.
-func vh02Sess(o *vhOut, r *rand.Rand, path string, msize uint32, stream []byte) {
+func vh02Sess(o *vhOut, r *rand.Rand, path string, msize uint32, stream []byte, sample bool) {
 	a, b, err := vh02SocketPair()
 	if err != nil {
 		panic(err)
@@ -160,9 +167,161 @@ func vh02Sess(o *vhOut, r *rand.Rand, path string, msize uint32, stream []byte) 
 	case <-time.After(10 * time.Second):
 		res.Hang = true
 	}
+	if !sample && !res.Hang && res.Returned && res.VerOK {
+		return // fuzz sessions: only every n-th uneventful one goes through the reply comparison
+	}
 	vh02id++
 	res.ID = vh02id
 	o.Emit(res)
+}
+
+// vh02Flush makes everything observed so far durable (a crash of the test binary must not lose it).
+func vh02Flush(o *vhOut) {
+	o.mu.Lock()
+	o.w.Flush()
+	o.mu.Unlock()
+}
+
+// vh02Inflight records the input about to be fed to code that may crash the process (server
+// goroutines are not under our recover); the check reads it back when the test binary died.
+func vh02Inflight(what string, msize uint32, stream []byte) {
+	d := os.Getenv("VERIF_RUNDIR")
+	if d == "" {
+		return
+	}
+	b, _ := json.Marshal(map[string]interface{}{"what": what, "msize": msize, "stream": vhBytes(stream)})
+	os.WriteFile(filepath.Join(d, "c02_inflight.json"), b, 0o644)
+}
+
+func vh02InflightDone() {
+	if d := os.Getenv("VERIF_RUNDIR"); d != "" {
+		os.Remove(filepath.Join(d, "c02_inflight.json"))
+	}
+}
+
+// vh02AllocOnce: bytes allocated (runtime.MemStats.TotalAlloc delta; ReadMemStats stops the world and
+// flushes the allocation caches, so the figure is exact) while recv handles the stream once.  Nothing
+// else runs in the test at that moment; the minimum of three runs discards stray allocations.
+func vh02AllocOnce(stream []byte, msize uint32) uint64 {
+	best := ^uint64(0)
+	for rep := 0; rep < 3; rep++ {
+		rd := &vh02Reader{data: stream, reads: make([]int, 0, 1024)}
+		var m0, m1 runtime.MemStats
+		runtime.ReadMemStats(&m0)
+		func() {
+			defer func() { recover() }()
+			recv(ulog.Null, rd, msize, msgDotLRegistry.get)
+		}()
+		runtime.ReadMemStats(&m1)
+		if d := m1.TotalAlloc - m0.TotalAlloc; d < best {
+			best = d
+		}
+	}
+	return best
+}
+
+func vh02Alloc(o *vhOut, what string, msize uint32, stream []byte) {
+	vh02id++
+	o.Emit(map[string]interface{}{"kind": "alloc", "id": vh02id, "what": what, "msize": msize, "stream": vhBytes(stream),
+		"alloc": vh02AllocOnce(stream, msize)})
+}
+
+// vh02Hostile: short frames whose counts / lengths promise far more than the body holds.
+func vh02Hostile() [][]byte {
+	var out [][]byte
+	ff := []byte{0xff, 0xff}
+	for _, typ := range []msgType{msgTwalk, msgTwalkgetattr} {
+		out = append(out, vhFrame(byte(typ), 9, append(append(vhLE32(1), vhLE32(2)...), ff...)))             // 17 bytes: fid newfid nwname=0xffff
+		out = append(out, vhFrame(byte(typ), 9, append(append(vhLE32(1), vhLE32(2)...), 0xff, 0x7f, 1, 0))) // one byte of the first name
+	}
+	out = append(out, vhFrame(byte(msgRwalk), 9, ff))                                  // 9 bytes: nwqid=0xffff
+	out = append(out, vhFrame(byte(msgRwalk), 9, append(ff, make([]byte, 13)...)))     // one QID then nothing
+	out = append(out, vhFrame(byte(msgRwalkgetattr), 9, ff))
+	out = append(out, vhFrame(byte(msgRwalkgetattr), 9, append(make([]byte, 160), ff...)))
+	out = append(out, vhFrame(byte(msgTversion), 9, append(vhLE32(8192), ff...)))      // string length 0xffff, no bytes
+	out = append(out, vhFrame(byte(msgTattach), 9, append(append(vhLE32(1), vhLE32(2)...), ff...)))
+	out = append(out, vhFrame(byte(msgTsymlink), 9, append(vhLE32(1), ff...)))
+	out = append(out, vhFrame(byte(msgTmkdir), 9, append(vhLE32(1), 0xfe, 0xff, 'a')))
+	out = append(out, vhFrame(byte(msgRreaddir), 9, append(vhLE32(0xffffffff), make([]byte, 30)...)))
+	out = append(out, vhFrame(byte(msgRreaddir), 9, append(vhLE32(24), append(make([]byte, 22), ff...)...))) // entry name length 0xffff
+	out = append(out, vhFrame(byte(msgRread), 9, vhLE32(0xffffffff)))
+	out = append(out, vhFrame(byte(msgTwrite), 9, append(append(vhLE32(1), vhLE64(0)...), vhLE32(0xfffffff0)...)))
+	out = append(out, vhFrame(byte(msgTxattrcreate), 9, append(vhLE32(1), ff...)))
+	return out
+}
+
+// vh02BadCounts: payload-carrying messages whose count field disagrees with the payload that follows.
+func vh02BadCounts() [][]byte {
+	var out [][]byte
+	for _, plen := range []int{0, 1, 10} {
+		pay := make([]byte, plen)
+		for i := range pay {
+			pay[i] = byte(i + 1)
+		}
+		for _, cnt := range []uint32{uint32(plen) + 1, uint32(plen) - 1, uint32(plen) + 1000, 0xffffffff, 0, uint32(plen)} {
+			out = append(out, vhFrame(byte(msgRread), 21, append(vhLE32(cnt), pay...)))
+			tw := append(append(vhLE32(3), vhLE64(5)...), vhLE32(cnt)...)
+			out = append(out, vhFrame(byte(msgTwrite), 22, append(tw, pay...)))
+			out = append(out, vhFrame(byte(msgRreaddir), 23, append(vhLE32(cnt), pay...)))
+		}
+	}
+	return out
+}
+
+func vh02FuzzSeconds(def int) int {
+	if v, err := strconv.Atoi(os.Getenv("VERIF_FUZZ_SECONDS")); err == nil {
+		return v
+	}
+	return def
+}
+
+// vh02Fuzz: random and mutated streams through the real recv for a fixed time; a Go panic or a recv that
+// does not return is reported with the stream.  (The observed half of "never panics": in the model that
+// clause holds by construction.)
+func vh02Fuzz(o *vhOut, r *rand.Rand, corpus [][]byte, seconds int) {
+	deadline := time.Now().Add(time.Duration(seconds) * time.Second)
+	iters, fails := 0, 0
+	kinds := map[string]int{}
+	for time.Now().Before(deadline) && fails < 5 {
+		var stream []byte
+		k := 1 + r.Intn(4)
+		for j := 0; j < k; j++ {
+			g := append([]byte{}, corpus[r.Intn(len(corpus))]...)
+			for m := r.Intn(4); m > 0; m-- {
+				g = vh02Mutate(r, g)
+			}
+			if r.Intn(8) == 0 {
+				g = make([]byte, r.Intn(40))
+				r.Read(g)
+			}
+			stream = append(stream, g...)
+		}
+		msize := []uint32{65536, 1024, 64, maximumLength, 1<<32 - 1, uint32(len(stream))}[r.Intn(6)]
+		var sc []vh02Step
+		if r.Intn(3) == 0 {
+			sc = vh02Cuts(r, len(stream))
+		}
+		res := make(chan []vh02Event, 1)
+		rd := &vh02Reader{data: stream, script: sc}
+		go func() { res <- vh02Loop(rd, msize, func() int { return rd.pos }, 16) }()
+		var evs []vh02Event
+		select {
+		case evs = <-res:
+		case <-time.After(20 * time.Second):
+			evs = []vh02Event{{Kind: "hang"}}
+		}
+		iters++
+		for _, e := range evs {
+			kinds[e.Kind]++
+			if e.Kind == "panic" || e.Kind == "hang" {
+				fails++
+				vh02id++
+				o.Emit(map[string]interface{}{"kind": "fuzzfail", "id": vh02id, "what": "recv " + e.Kind, "msize": msize, "stream": vhBytes(stream), "script": sc})
+			}
+		}
+	}
+	vh02id++
+	o.Emit(map[string]interface{}{"kind": "fuzz", "id": vh02id, "what": "recv", "iterations": iters, "seconds": seconds, "outcomes": kinds, "failures": fails})
 }
 
 func TestVerifC02(t *testing.T) {
@@ -186,6 +345,32 @@ func TestVerifC02(t *testing.T) {
 		}
 		for _, ms := range mss {
 			vh02Run(o, "valid", ms, f, full(), 1)
+		}
+	}
+	// 1b. inconsistent counts for every payload-carrying type, alone and followed by a good frame
+	for _, f := range vh02BadCounts() {
+		vh02Run(o, "badcount", 65536, f, full(), 1)
+		vh02Run(o, "badcount", 65536, append(append([]byte{}, f...), corpus[3]...), full(), 3)
+	}
+	// 1c. counts and lengths far larger than the body, and what recv allocates for them
+	for _, f := range vh02Hostile() {
+		for _, ms := range []uint32{4096, uint32(len(f)), 65536} {
+			vh02Run(o, "hostile", ms, f, full(), 1)
+			vh02Alloc(o, "hostile", ms, f)
+		}
+		vh02Run(o, "hostile", 4096, append(append([]byte{}, f...), corpus[5]...), full(), 3)
+	}
+	// 1d. allocation for valid frames and for size fields between msize and 4 MiB (nothing may be
+	// allocated for a refused header)
+	for i, f := range corpus {
+		if thorough || i%4 == 0 {
+			vh02Alloc(o, "valid", 65536, f)
+			vh02Alloc(o, "valid", uint32(len(f)), f)
+		}
+	}
+	for _, sz := range []uint32{65, 4096, 1 << 20, maximumLength, maximumLength + 1, 1<<32 - 1} {
+		for _, typ := range []byte{byte(msgTwrite), byte(msgTwalk), 3} {
+			vh02Alloc(o, "refused-size", 64, vh02SetSize(vhFrame(typ, 5, make([]byte, 40)), sz))
 		}
 	}
 	// 2. size fields around the limits, body unchanged (stream shorter or longer than the size says)
@@ -227,7 +412,11 @@ func TestVerifC02(t *testing.T) {
 		}
 		ms := []uint32{65536, 65536, 1024, uint32(len(f)), uint32(len(f)) + 3}[r.Intn(5)]
 		if r.Intn(2) == 0 {
-			vh02Run(o, "mutant", ms, f, full(), 1)
+			if r.Intn(4) == 0 { // short reads (a discarded body must still be consumed exactly)
+				vh02Run(o, "mutant-cut", ms, f, vh02Cuts(r, len(f)), 1)
+			} else {
+				vh02Run(o, "mutant", ms, f, full(), 1)
+			}
 			continue
 		}
 		var stream []byte
@@ -266,7 +455,11 @@ func TestVerifC02(t *testing.T) {
 		}
 	}
 	for _, n := range []int{0, 1, 100, 8191, 8192, 8193, 20000} {
-		vh02Run(o, "unknown-type", 65536, append(vhFrame(3, 1234, make([]byte, n)), corpus[5]...), full(), 3)
+		st := append(vhFrame(3, 1234, make([]byte, n)), corpus[5]...)
+		vh02Run(o, "unknown-type", 65536, st, full(), 3)
+		if n <= 8193 {
+			vh02Run(o, "unknown-type-cut", 65536, st, vh02Cuts(r, len(st)), 3)
+		}
 	}
 	// 7. frames too large for the Coq evaluation: observed numbers only
 	for _, c := range [][3]uint32{
@@ -317,7 +510,46 @@ func TestVerifC02(t *testing.T) {
 		if i%2 == 1 {
 			path = "generic"
 		}
-		vh02Sess(o, r, path, ms, stream)
+		vh02Flush(o)
+		vh02Inflight("session "+path, ms, stream)
+		vh02Sess(o, r, path, ms, stream, true)
+		vh02InflightDone()
 	}
+	// 9. fuzz-style loop (thorough: minutes; quick: seconds)
+	secs := vh02FuzzSeconds(4)
+	if thorough {
+		secs = vh02FuzzSeconds(150)
+	}
+	vh02Flush(o)
+	vh02Fuzz(o, r, corpus, secs)
+	// ... and through a live Server.Handle
+	sessSecs := secs / 3
+	end := time.Now().Add(time.Duration(sessSecs) * time.Second)
+	nfs := 0
+	for time.Now().Before(end) {
+		var stream []byte
+		for j := 1 + r.Intn(6); j > 0; j-- {
+			g := append([]byte{}, corpus[r.Intn(len(corpus))]...)
+			for m := r.Intn(3); m > 0; m-- {
+				g = vh02Mutate(r, g)
+			}
+			if len(g) >= 7 {
+				if g[4] == byte(msgTversion) {
+					g[4] = byte(msgTclunk)
+				}
+				tagno++
+				binary.LittleEndian.PutUint16(g[5:], tagno)
+			}
+			stream = append(stream, g...)
+		}
+		ms := []uint32{65536, 1024, 256}[r.Intn(3)]
+		vh02Flush(o)
+		vh02Inflight("fuzz session", ms, stream)
+		vh02Sess(o, r, []string{"vec", "generic"}[nfs%2], ms, stream, nfs%40 == 0)
+		vh02InflightDone()
+		nfs++
+	}
+	vh02id++
+	o.Emit(map[string]interface{}{"kind": "fuzz", "id": vh02id, "what": "session", "iterations": nfs, "seconds": sessSecs, "failures": 0})
 	_ = io.EOF
 }
